@@ -33,6 +33,9 @@ def base_sheets():
                        ["foi", "Force of infection", "probability", 1, None, 0, None, "beta*inf/max(alive,1)", None], ["rec", "Recovery rate", "rate", 1, None, 0, None, None, "pa"],
                        ["split1", "Proportion recovering", "proportion", None, 0.9, 0, 1, None, "pa"], ["split2", "Proportion dying", "proportion", None, 0.1, 0, 1, None, "pa"],
                        ["wane", "Duration of immunity", "duration", 1, 5, 0, None, None, "pa"], ["mort", "Death rate", "rate", 1, 0.02, 0, None, None, "pa"]]
+    S["Parameters"][0].append("Targetable")
+    for r in S["Parameters"][1:]:
+        r.append("y" if r[0] in ("rec", "mort") else "n")
     S["Cascades"] = [["Care cascade", "Constituents"], ["Everybody", "sus, inf, rcv"], ["Ever infected", "inf, rcv"], ["Recovered", "rcv"]]
     return S
 
@@ -48,7 +51,7 @@ def set_cell(rows, code, col, val):
 
 def mutate_framework(S, m):
     S = copy.deepcopy(S)
-    if m in ("none", "blank_optional_column") or m.startswith("databook_"):
+    if m in ("none", "blank_optional_column") or m.startswith("databook_") or m.startswith("progbook_"):
         if m == "blank_optional_column":
             for r in S["Compartments"][1:]:  # the defaults (1 if in the databook, else 0) coincide with the values entered in the base file
                 r[S["Compartments"][0].index("Setup Weight")] = None
@@ -59,7 +62,7 @@ def mutate_framework(S, m):
     tcol = lambda n: T[0].index(n)
     trow = lambda n: [r for r in T[1:] if r[0] == n][0]
     if m == "add_output_parameter":
-        P.append(["extra", "Extra output", None, None, None, None, None, "max(sus, 1)", None])
+        P.append(["extra", "Extra output", None, None, None, None, None, "max(sus, 1)", None, "n"])
     elif m == "undefined_compartment_in_transition":
         T[0].append("nowhere")
         for r in T[1:]:
@@ -75,7 +78,7 @@ def mutate_framework(S, m):
     elif m == "duplicate_display_name":
         set_cell(P, "mort", "Display Name", "Recovery rate")
     elif m == "reserved_name":
-        P.append(["t", "Time parameter", None, None, None, None, None, None, None])
+        P.append(["t", "Time parameter", None, None, None, None, None, None, None, "n"])
     elif m == "junction_outflow_not_proportion":
         set_cell(P, "split1", "Format", "probability")
         set_cell(P, "split1", "Timescale", 1)
@@ -166,6 +169,10 @@ def mutate_databook(at, Fw, D, m):
                         c.value = wb[m_.group(1)]["%s%s" % (m_.group(2), m_.group(3))].value
     if m == "databook_delete_state_sheet":
         del wb["State"]
+    elif m == "databook_unit_mismatch_compartment":
+        ws = wb["State"]
+        r0, c0 = [(c.row, c.column) for row in ws.iter_rows() for c in row if c.value == "Infected"][0]
+        ws.cell(r0 + 1, c0 + 2).value = "Fraction"  # a compartment's initial size must be entered as a number
     else:
         ws = wb["Parameters"]
         hdr = [(c.row, c.column) for row in ws.iter_rows() for c in row if c.value == "Recovery rate"]
@@ -182,6 +189,117 @@ def mutate_databook(at, Fw, D, m):
                     ws.cell(rr, cc).value = None
         elif m == "databook_unknown_population":
             ws.cell(r0 + 1, c0).value = "Nobody"
+    out = io.BytesIO()
+    wb.save(out)
+    out.seek(0)
+    return sc.Spreadsheet(out)
+
+
+def base_progset(at, Fw, D):
+    """The valid program book of MCValidate.tla's base file: two programs, two effect rows, one explicit interaction outcome."""
+    import sciris as sc
+    from atomica.programs import Covout
+    from atomica.utils import TimeSeries
+
+    pg = at.ProgramSet.new(tvec=np.array([2000.0, 2001.0]), progs=sc.odict([("P1", "Prog one"), ("P2", "Prog two")]), framework=Fw, data=D)
+    for n, comp, spend in (("P1", "inf", 100.0), ("P2", "sus", 50.0)):
+        pr = pg.programs[n]
+        pr.target_pops = ["adults", "kids"]
+        pr.target_comps = [comp]
+        pr.spend_data = TimeSeries([2000.0], [spend], units="$/year")
+        pr.unit_cost = TimeSeries([2000.0], [2.0], units="$/person/year")
+    pg.covouts[("rec", "adults")] = Covout("rec", "adults", {"P1": 0.9, "P2": 0.7}, baseline=0.5, imp_interaction="P1+P2=0.95")
+    pg.covouts[("mort", "kids")] = Covout("mort", "kids", {"P2": 0.01}, baseline=0.02)
+    return pg
+
+
+def mutate_progbook(pg, m):
+    """Returns the program book of pg as a spreadsheet with defect m (cell-level edits with openpyxl)."""
+    import openpyxl
+    import re as _re
+    import sciris as sc
+
+    wb = openpyxl.load_workbook(io.BytesIO(pg.to_spreadsheet().blob), data_only=False)
+    for ws_ in wb.worksheets:  # openpyxl keeps no cached formula results: replace references by their values
+        for row in ws_.iter_rows():
+            for c in row:
+                if isinstance(c.value, str) and c.value.startswith("='"):
+                    m_ = _re.match(r"='([^']+)'!\$?([A-Z]+)\$?(\d+)$", c.value)
+                    if m_:
+                        c.value = wb[m_.group(1)]["%s%s" % (m_.group(2), m_.group(3))].value
+    T, Sp, E = wb["Program targeting"], wb["Spending data"], wb["Program effects"]
+    find = lambda ws, v: [(c.row, c.column) for row in ws.iter_rows() for c in row if c.value == v]
+    if m in ("progbook_none",):
+        pass
+    elif m == "progbook_lowercase_flags":
+        for row in T.iter_rows(min_row=3):
+            for c in row:
+                if c.value in ("Y", "N"):
+                    c.value = c.value.lower()
+    elif m == "progbook_zero_outcome":
+        r, c = find(E, "Death rate")[0]
+        E.cell(r + 2, c + 7).value = 0  # P2's outcome on the death rate of children: exactly zero
+    elif m == "progbook_unknown_population":
+        r, c = find(T, "Children")[0]
+        T.cell(r, c).value = "Nobody"
+    elif m == "progbook_unknown_compartment":
+        r, c = find(T, "Infected")[0]
+        T.cell(r, c).value = "Ghosts"
+    elif m == "progbook_duplicate_program":
+        r, c = find(T, "P2")[0]
+        T.cell(r, c).value = "P1"
+    elif m == "progbook_reserved_program_name":
+        for ws in (T, Sp, E):
+            for (r, c) in find(ws, "P2"):
+                ws.cell(r, c).value = "all"
+    elif m == "progbook_untargetable_parameter":
+        r, c = find(E, "Death rate")[0]
+        E.cell(r, c).value = "Duration of immunity"
+    elif m == "progbook_unknown_parameter":
+        r, c = find(E, "Death rate")[0]
+        E.cell(r, c).value = "No such parameter"
+    elif m == "progbook_unknown_effect_population":
+        r, c = find(E, "Death rate")[0]
+        E.cell(r + 2, c).value = "Nobody"
+    elif m == "progbook_unknown_program_in_effects":
+        r, c = find(E, "Death rate")[0]
+        E.cell(r, c + 7).value = "P9"
+    elif m == "progbook_interaction_unknown_program":
+        r, c = find(E, "P1+P2=0.95")[0]
+        E.cell(r, c).value = "P1+P9=0.95"
+    elif m == "progbook_interaction_program_without_outcome":
+        r, c = find(E, "Death rate")[0]
+        E.cell(r + 2, c + 3).value = "P1+P2=0.005"  # P1 has no outcome in that row
+    elif m == "progbook_no_target_compartment":
+        r, c = find(T, "P1")[0]
+        for cc in range(6, T.max_column + 1):
+            T.cell(r, cc).value = "N"
+    elif m == "progbook_no_target_population":
+        r, c = find(T, "P1")[0]
+        for cc in (3, 4):
+            T.cell(r, cc).value = "N"
+    elif m in ("progbook_missing_unit_cost", "progbook_missing_spending"):
+        r, c = find(Sp, "P1")[0]
+        rr = r + (2 if m.endswith("unit_cost") else 1)
+        for cc in range(5, Sp.max_column + 1):
+            if Sp.cell(rr, cc).value != "OR":
+                Sp.cell(rr, cc).value = None
+    elif m == "progbook_outcome_without_baseline":
+        r, c = find(E, "Recovery rate")[0]
+        E.cell(r + 1, c + 1).value = None
+    elif m == "progbook_bad_coverage_interaction":
+        r, c = find(E, "Recovery rate")[0]
+        E.cell(r + 1, c + 2).value = "Sometimes"
+    elif m == "progbook_mixed_currencies":
+        r, c = find(Sp, "P2")[0]
+        Sp.cell(r + 1, c + 2).value = "EUR/year"
+        Sp.cell(r + 2, c + 2).value = "EUR/person/year"
+    elif m == "progbook_delete_effects_sheet":
+        del wb["Program effects"]
+    elif m == "progbook_delete_spending_sheet":
+        del wb["Spending data"]
+    else:
+        raise ValueError(m)
     out = io.BytesIO()
     wb.save(out)
     out.seek(0)
@@ -218,6 +336,25 @@ def try_case(at, S0, m):
             P.run_sim(P.parsets[0], store_results=False)
         except Exception as ex:
             return ("rejected" if dedicated(ex) else "error"), False, "databook: %s: %s" % (type(ex).__name__, str(ex)[:200])
+        return "accepted", True, ""
+    if m.startswith("progbook_"):
+        try:
+            P = at.Project(framework=Fw, databook=D2.to_spreadsheet(), do_run=False)
+            P.settings.update_time_vector(start=2000, end=2003, dt=0.25)
+            ss = mutate_progbook(base_progset(at, Fw, P.data), m)
+        except Exception as ex:
+            raise C.MachineryError("cannot build the base program book: %s: %s" % (type(ex).__name__, ex))
+        try:
+            pg = P.load_progbook(ss)  # reading a program book = ProgramSet.from_spreadsheet + validate
+        except Exception as ex:
+            return ("rejected" if dedicated(ex) else "error"), False, "progbook: %s: %s" % (type(ex).__name__, str(ex)[:200])
+        try:
+            res = P.run_sim(P.parsets[0], pg, at.ProgramInstructions(start_year=2001.0, alloc=pg), store_results=False)
+            frac = res.get_coverage("fraction")
+            if not all(np.all(np.isfinite(v)) for v in frac.values()):
+                return "accepted", False, "run with programs: non-finite coverage"
+        except Exception as ex:
+            return "accepted", False, "run with programs: %s: %s" % (type(ex).__name__, str(ex)[:200])
         return "accepted", True, ""
     try:
         P = at.Project(framework=Fw, databook=D2.to_spreadsheet(), do_run=False)
